@@ -54,12 +54,13 @@ pub fn run(run: &RunInfo) -> Summary {
             depth: if noisy || related { depth - 1 } else { depth },
             ops: if related { rel_ops.clone() } else { all_ops.clone() },
             dangling: None,
-            reservation_menu: vec![Outcome::Ok, Outcome::Abort(0x6c), Outcome::Abort(0xfc), Outcome::NoStatus, Outcome::OkExtraStatus],
+            reservation_menu: vec![Outcome::Ok, Outcome::Abort(0x6c), Outcome::Abort(0xfc), Outcome::NoStatus, Outcome::OkExtraStatus, Outcome::StatusThenAbort(0x6c)],
             commit_menu: vec![Outcome::Ok, Outcome::Abort(0x6c)],
             cancel_menu: vec![Outcome::Ok, Outcome::Abort(0xb4)],
             eod_menu: vec![Eod::Completion],
             noise: noisy,
             delay_ms: 0,
+            focus19: false,
         };
         let st = dbx::explore(if noisy { 1 } else { 0 }, 200_000_000, |ctx| {
             let o = history(ctx, &p, Some(first), acc);
@@ -87,12 +88,13 @@ pub fn run(run: &RunInfo) -> Summary {
                 depth: 0,
                 ops: all_ops.clone(),
                 dangling: None,
-                reservation_menu: vec![Outcome::Ok, Outcome::Abort(0x6c), Outcome::Abort(0xfc), Outcome::NoStatus, Outcome::OkExtraStatus],
+                reservation_menu: vec![Outcome::Ok, Outcome::Abort(0x6c), Outcome::Abort(0xfc), Outcome::NoStatus, Outcome::OkExtraStatus, Outcome::StatusThenAbort(0x6c)],
                 commit_menu: vec![Outcome::Ok, Outcome::Abort(0x6c)],
                 cancel_menu: vec![Outcome::Ok, Outcome::Abort(0xb4)],
                 eod_menu: vec![Eod::Completion],
                 noise: false,
                 delay_ms: 0,
+                focus19: false,
             };
             let (levels, states, transitions, fix) = bfs(&p, 12, &format!("c07/max={max}"), |o| &o.c07, &mut acc);
             acc.count("bfs_states", states as u64);
